@@ -198,6 +198,7 @@ package goose
 //@   ensures [only the modelled integer types are integer types] result.1 ==> modelledint(t)
 //@   ensures [anything else has no width] !result.1 ==> result.0.width == 0 && !result.0.isUntyped
 //@   ensures [the untyped flag is for untyped constants] result.1 ==> (result.0.isUntyped <==> bkind(t) == types.UntypedInt)
+//@   ensures [width 64 is uint64, uint and int] result.1 ==> (result.0.width == 64 <==> bkind(t) == types.Uint || bkind(t) == types.Int || bkind(t) == types.Uint64)
 //@ func (Ctx).basicLiteral (ctx, e)
 //@   may_reject
 //@   ensures [only string and integer literals] e.Kind == token.STRING || e.Kind == token.INT
@@ -210,6 +211,8 @@ package goose
 //@   ensures [only supported expression kinds] typeis(e, *ast.CallExpr) || typeis(e, *ast.MapType) || typeis(e, *ast.Ident) || typeis(e, *ast.SelectorExpr) || typeis(e, *ast.CompositeLit) || typeis(e, *ast.BasicLit) || typeis(e, *ast.BinaryExpr) || typeis(e, *ast.SliceExpr) || typeis(e, *ast.IndexExpr) || typeis(e, *ast.UnaryExpr) || typeis(e, *ast.ParenExpr) || typeis(e, *ast.StarExpr) || typeis(e, *ast.TypeAssertExpr) || typeis(e, *ast.FuncLit)
 //@ func (Ctx).rangeStmt (ctx, s)
 //@   may_reject
+//@   ensures [a term is returned] result != nil
+//@   ensures [range only over maps and slices] typeis(utype(tyof(ctx, s.X)), *types.Map) || typeis(utype(tyof(ctx, s.X)), *types.Slice)
 //@   ensures [range variables are declared by the loop, not assigned] s.Tok == token.DEFINE || (s.Key == nil && s.Value == nil)
 //@ func (Ctx).returnType (ctx, results)
 //@   may_reject
@@ -282,6 +285,37 @@ package goose
 //@ func (Ctx).indexExpr (ctx, e, isSpecial)
 //@   may_reject
 //@   ensures [indexing only into maps and slices] typeis(utype(tyof(ctx, e.X)), *types.Map) || typeis(utype(tyof(ctx, e.X)), *types.Slice)
+
+//@ func (Ctx).mapRangeStmt (ctx, s)
+//@   may_reject
+//@   ensures [a term is returned] result != nil
+//@   ensures [map iteration binds identifiers (or nothing)] (s.Key == nil || typeis(s.Key, *ast.Ident)) && (s.Value == nil || typeis(s.Value, *ast.Ident))
+//@ func (Ctx).refExpr (ctx, s)
+//@   may_reject
+//@   ensures [a term is returned] result != nil
+//@   ensures [references only to variables and struct fields] typeis(s, *ast.Ident) || typeis(s, *ast.SelectorExpr)
+//@ func (Ctx).assignFromTo (ctx, s, lhs, rhs)
+//@   may_reject
+//@   ensures [assignment targets are variables, elements, pointees or fields] typeis(lhs, *ast.Ident) || typeis(lhs, *ast.IndexExpr) || typeis(lhs, *ast.StarExpr) || typeis(lhs, *ast.SelectorExpr)
+//@   ensures [element update only of slices and maps] typeis(lhs, *ast.IndexExpr) ==> typeis(tyof(ctx, lhs.(*ast.IndexExpr).X), *types.Slice) || typeis(tyof(ctx, lhs.(*ast.IndexExpr).X), *types.Map)
+//@ func (Ctx).funcDecl (ctx, d)
+//@   may_reject
+//@   ensures [a method has one receiver, named by an identifier (possibly behind a pointer)] d.Recv != nil ==> len(d.Recv.List) == 1 && (typeis(d.Recv.List[0].Type, *ast.Ident) || (typeis(d.Recv.List[0].Type, *ast.StarExpr) && typeis(d.Recv.List[0].Type.(*ast.StarExpr).X, *ast.Ident)))
+//@ func (Ctx).maybeDecls (ctx, d)
+//@   may_reject
+//@   ensures [only function, import, const, var and type declarations] typeis(d, *ast.FuncDecl) || (typeis(d, *ast.GenDecl) && (d.(*ast.GenDecl).Tok == token.IMPORT || d.(*ast.GenDecl).Tok == token.CONST || d.(*ast.GenDecl).Tok == token.VAR || d.(*ast.GenDecl).Tok == token.TYPE))
+//@   ensures [one type per type declaration] typeis(d, *ast.GenDecl) && d.(*ast.GenDecl).Tok == token.TYPE ==> len(d.(*ast.GenDecl).Specs) <= 1
+//@   ensures [functions have bodies] typeis(d, *ast.FuncDecl) && !ctx.PkgConfig.TranslationConfig.SkipInterfaces ==> d.(*ast.FuncDecl).Body != nil
+//@ func (Ctx).selectorExprType (ctx, e)
+//@   may_reject
+//@   ensures [sync.Mutex and sync.Cond only behind a pointer] !(identnamed(e.X, "sync") && (e.Sel.Name == "Cond" || e.Sel.Name == "Mutex"))
+//@ func (Ctx).coqTypeOfType (ctx, n, t)
+//@   may_reject
+//@   ensures [a type is returned] result != nil
+//@ ghost func basicname(t types.Type) string = pure(string, "(*go/types.Basic).Name", t.(*types.Basic))
+//@ ghost func mapkeyok(t types.Type) bool = (typeis(t, *types.Basic) && basicname(t) == "string") || (modelledint(t) && (bkind(t) == types.Uint || bkind(t) == types.Int || bkind(t) == types.Uint64 || bkind(t) == types.UntypedInt))
+//@ func supportedMapKey (keyTy)
+//@   ensures [map keys are strings or 64-bit integers] result ==> mapkeyok(keyTy)
 
 // ---- look-alikes: a builtin translation requires the universe builtin (C02) ----------------------
 
@@ -384,17 +418,22 @@ package goose
 // (its pointee is not mentioned), so translating `*T` records nothing. A spurious edge could close
 // a cycle in the recorded graph of a package whose real dependency graph is acyclic.
 //@ func (Ctx).coqType (ctx, e)
+//@   also C02 C07
 //@   may_reject
 //@   noframe
 //@   use ast
+//@   ensures [only supported type expressions] typeis(e, *ast.Ident) || typeis(e, *ast.MapType) || typeis(e, *ast.SelectorExpr) || typeis(e, *ast.ArrayType) || typeis(e, *ast.StarExpr) || typeis(e, *ast.InterfaceType) || typeis(e, *ast.Ellipsis) || typeis(e, *ast.FuncType)
+//@   ensures [of the interface types only the empty one] typeis(e, *ast.InterfaceType) ==> len(e.(*ast.InterfaceType).Methods.List) == 0
 //@   ensures [C04 a pointer type mentions nothing: no dependency is recorded for it] typeis(e, *ast.StarExpr) ==> depset == old(depset)
 //@   ensures [C04 the dependency on a type named by an identifier is recorded] typeis(e, *ast.Ident) ==> depset[ref(ctx.dep)][e.(*ast.Ident).Name]
 // Composite type expressions record the names in their components: they must translate them as
 // type *expressions* (coqType), not through type inference (coqTypeOfType records nothing).
 //@ func (Ctx).mapType (ctx, e)
+//@   also C02 C07
 //@   may_reject
 //@   noframe
 //@   use ast
+//@   ensures [map keys are strings or 64-bit integers] mapkeyok(pure(types.Type, "(*go/types.Map).Key", utype(tyof(ctx, ast.Expr(e))).(*types.Map)))
 //@   ensures [C04 the dependency on a named key type is recorded] typeis(e.Key, *ast.Ident) ==> depset[ref(ctx.dep)][e.Key.(*ast.Ident).Name]
 //@   ensures [C04 the dependency on a named value type is recorded] typeis(e.Value, *ast.Ident) ==> depset[ref(ctx.dep)][e.Value.(*ast.Ident).Name]
 //@ func (Ctx).arrayType (ctx, e)
